@@ -48,7 +48,7 @@ def failing(prop: str, root: Path) -> tuple[set[str], list[str]]:
 def main() -> int:
     args = [a for a in sys.argv[1:] if not a.startswith("--")]
     rename = "--rename" in sys.argv
-    mode = next((m for m in ("log", "flip", "try", "retvar", "elseret", "recv", "annot", "kw", "pos", "params", "delegate", "sqlvar") if f"--{m}" in sys.argv), "")
+    mode = next((m for m in ("log", "flip", "try", "retvar", "elseret", "recv", "annot", "kw", "pos", "params", "delegate", "sqlvar", "guard") if f"--{m}" in sys.argv), "")
     props = args or PROPS
     src = Path("/repo")
     tmp = Path(tempfile.mkdtemp(prefix="sa-twin-"))
